@@ -188,6 +188,9 @@ def run(res: C.Result):
                 why = f"type {r.get('type')}"
         if why:
             res.fail(f"{dom}:{classify(t)}", why, {"input": {"domain": dom, "tree": t}, "observed": r})
+        if r.get("mutated_operands"):
+            res.fail(f"{dom}:operand-modified", f"evaluating the expression changed the elements of {r['mutated_operands']} of its own operands: a composite that is used again afterwards no longer holds "
+                     f"exactly its operands' elementary parts", {"input": {"domain": dom, "tree": t}, "observed": r})
         (coq_cases_m if dom == "move" else coq_cases_o).append((n, t, enc if dom == "move" else ([0] + enc[1:] if enc[0] == 9 or (enc[0] >= 0) else enc)))
     for sp, r in zip(special, results[len(cases):len(cases) + len(special)]):
         ok = ("error" in r) if sp["py"] != "rmul" else (r.get("ids") in ([1, 1], [1, 2, 1, 2]))
